@@ -11,6 +11,7 @@ import Driver.Ops.Scale
 import Driver.Ops.Strict
 import Driver.Ops.Ts
 import Driver.Ops.Cfg
+import Driver.Ops.Group
 /-! Line-protocol driver of the model: one JSON case per input line, one JSON answer per line.
     To add an op: write `Driver/Ops/<Name>.lean`, import it here, add one line to `opTable`
     (or to `outputTable` for a new output kind of op `run`). -/
@@ -25,7 +26,8 @@ def outputTable : List (String × Ops.OutputFn) := [
   ("equity", Ops.outEquity),
   ("selects", Ops.outSelects),
   ("baltxt", Ops.outBalanceTxt),
-  ("probe", Ops.outProbe)
+  ("probe", Ops.outProbe),
+  ("balgrp", Ops.outBalGrp)
 ]
 
 /-- ops -/
